@@ -13,22 +13,26 @@ LIFE = {"quick": {1: 6, 2: 4}, "thorough": {1: 8, 2: 6}}
 # ------------------------------------------------------------------------------------------
 # TLC helpers
 def live(chk, module, cfg, expect_violation=False, timeout=900, workers=6):
-    """liveness run; vlib only knows the old wording of TLC's temporal-violation message"""
-    try:
-        r = vlib.tlc(module, cfg, workers=workers, timeout=timeout, heap="6g")
-        out = r.out
-    except vlib.MachineryError as me:
-        out, r = str(me), None
-    violated = re.search(r"Temporal propert(y|ies) .*(was|were) violated", out) is not None
+    """liveness run (own TLC invocation: vlib.tlc only knows one wording of TLC's temporal-violation message)"""
+    import shutil, time
+    meta = vlib.workdir("tlc-%s-%s-%d" % (module, cfg.replace(".cfg", ""), os.getpid()))
+    cmd = ["java", "-XX:+UseParallelGC", "-Xmx6g", "-cp", vlib.TLA_CP, "tlc2.TLC", "-workers", str(workers), "-metadir", os.path.join(meta, "states"),
+           "-noGenerateSpecTE", "-config", cfg, module + ".tla"]
+    t0 = time.time()
+    rc, out = vlib.sh(cmd, timeout=timeout, cwd=vlib.SPEC, check=False)
+    r = vlib.TlcOut(out, rc, time.time() - t0)
+    shutil.rmtree(meta, ignore_errors=True)
+    violated = re.search(r"Temporal propert(y|ies)\b.*(was|were) violated", out) is not None
+    if not violated and ("Error:" in out or not r.completed or r.distinct == 0):
+        raise vlib.MachineryError("TLC liveness run failed %s/%s:\n%s" % (module, cfg, out[-3000:]))
     if expect_violation:
         if not violated:
             raise vlib.MachineryError("vacuity: %s/%s expected a liveness violation\n%s" % (module, cfg, out[-2000:]))
-        log("[tlc] %s %s: liveness violated as expected (deviation)" % (module, cfg))
+        log("[tlc] %s %s: liveness violated as expected (deviation), %.1fs" % (module, cfg, r.dt))
         return None
     if violated:
-        raise vlib.ModelViolation(module, cfg, r if r is not None else vlib.TlcOut(out, 1, 0))
-    if r is None or not r.completed or r.distinct == 0:
-        raise vlib.MachineryError("TLC liveness run did not complete %s/%s:\n%s" % (module, cfg, out[-3000:]))
+        r.violated = "liveness"
+        raise vlib.ModelViolation(module, cfg, r)
     log("[tlc] %s %s: liveness holds, %d distinct states, %.1fs" % (module, cfg, r.distinct, r.dt))
     chk.add_model("%s liveness (%s)" % (module, cfg), r, "fair ticks and clock; temporal properties hold")
     return r
@@ -40,30 +44,47 @@ _FLD = re.compile(r"(\w+) \|-> (?:\"(\w*)\"|(-?\d+)|(TRUE|FALSE))")
 
 def dump_hists(module, cfg, rng, limit, **kw):
     """model-check with -dump; return (TlcOut, sample of action histories (lists of dicts), number of states)"""
+    import shutil
     wd = vlib.workdir("dump-%s-%s-%d" % (module, cfg.replace(".cfg", ""), os.getpid()))
     dumpf = os.path.join(wd, "dump")
     r = vlib.mc(module, cfg, extra=["-dump", dumpf], wd=wd, **kw)
     path = dumpf + ".dump" if os.path.exists(dumpf + ".dump") else dumpf
-    text = open(path).read()
-    blocks = re.split(r"^State \d+:\s*$", text, flags=re.M)[1:]
-    n = len(blocks)
+    # stream the dump: reservoir-sample the hist values (one per distinct state)
+    picked, n, cur = [], 0, None
+
+    def done(text):
+        nonlocal n
+        n += 1
+        if len(picked) < limit:
+            picked.append(text)
+        else:
+            j = rng.randrange(n)
+            if j < limit:
+                picked[j] = text
+    with open(path) as f:
+        for line in f:
+            if line.startswith("/\\ hist = "):
+                cur = [line[len("/\\ hist = "):]]
+            elif cur is not None:
+                if line.startswith("/\\ ") or line.startswith("State ") or not line.strip():
+                    done("".join(cur))
+                    cur = None
+                else:
+                    cur.append(line)
+    if cur is not None:
+        done("".join(cur))
+    shutil.rmtree(wd, ignore_errors=True)
     if n == 0:
         raise vlib.MachineryError("no states in TLC dump of %s/%s" % (module, cfg))
-    pick = blocks if n <= limit else rng.sample(blocks, limit)
     hists = []
-    for b in pick:
-        m = re.search(r"^/\\ hist = (.*?)(?=^/\\ |\Z)", b, flags=re.M | re.S)
-        if not m:
-            continue
+    for text in picked:
         h = []
-        for rec in _REC.findall(m.group(1)):
+        for rec in _REC.findall(text):
             d = {}
-            for k, s, i, bl in _FLD.findall(rec):
-                d[k] = s if (s or (not i and not bl)) else (int(i) if i else bl == "TRUE")
+            for k, sv, iv, bl in _FLD.findall(rec):
+                d[k] = int(iv) if iv else (bl == "TRUE") if bl else sv
             h.append(d)
         hists.append(h)
-    import shutil
-    shutil.rmtree(wd, ignore_errors=True)
     return r, hists, n
 
 
@@ -259,26 +280,49 @@ def events_to_script(events):
     return lines
 
 
-def run_and_validate(chk, side, behaviours, label):
-    if not behaviours:
+def run_and_validate(chk, side, groups, label=None):
+    """groups: list of (label, [behaviour script lines]); one driver run and one TLC validation for all of them"""
+    if isinstance(groups, list) and groups and not isinstance(groups[0], tuple):
+        groups = [(label or "behaviours", groups)]
+    groups = [(lb, bs) for lb, bs in groups if bs]
+    if not groups:
         return None
+    label = "+".join(lb for lb, _ in groups)
     b = vlib.build("sched")["sched"]
-    wd = vlib.workdir("sched-%s-%s" % (chk.pid, label))
+    wd = vlib.workdir("sched-%s-%s" % (chk.pid, re.sub(r"[^A-Za-z0-9_-]", "_", label)[:40]))
     script, trace = os.path.join(wd, "script.txt"), os.path.join(wd, "trace.ndjson")
     with open(script, "w") as f:
-        for lines in behaviours:
-            f.write("\n".join(lines) + "\n")
-    vlib.sh([b, script, trace], timeout=1200)
+        for _, bs in groups:
+            for lines in bs:
+                f.write("\n".join(lines) + "\n")
+    vlib.sh([b, script, trace], timeout=1800)
     events = vlib.read_ndjson(trace)
-    res = vlib.validate(side["trace"], trace, timeout=1200)
+    res = vlib.validate(side["trace"], trace, timeout=1800)
     nb = sum(1 for e in events if e["op"] == "reset")
-    chk.add_traces(nb, len(events), res, label)
+    if nb != sum(len(bs) for _, bs in groups):
+        raise vlib.MachineryError("driver recorded %d behaviours, %d were scripted" % (nb, sum(len(bs) for _, bs in groups)))
+    chk.add_traces(nb, len(events), res, ", ".join("%s: %d" % (lb, len(bs)) for lb, bs in groups))
     for e in events:
         if e["op"] in ("req", "ack", "tick", "ann", "chunk"):
             chk.nontrivial([e["op"], [f[1] for f in e.get("fr", [])], len(e.get("act", [])), sorted(x[1] for x in e.get("per", [])), len(e.get("q", [])),
                             sorted((x[2], x[4], x[3] == -1) for x in e.get("pf", [])), sorted(x[1] for x in e.get("apr", []))])
-    if events:
-        chk.sample({"source": label, "first_events": events[:10]})
+    # one sample per group (its first behaviour)
+    starts, k = [], 0
+    for lb, bs in groups:
+        starts.append((k, lb))
+        k += len(bs)
+    seen_b = -1
+    wanted = dict(starts)
+    cur = None
+    for e in events:
+        if e["op"] == "reset":
+            seen_b += 1
+            cur = wanted.get(seen_b)
+            if cur:
+                chk.sample({"source": cur, "first_events": []})
+        if cur and chk.cov["samples"] and isinstance(chk.cov["samples"][-1], dict) and chk.cov["samples"][-1].get("source") == cur \
+                and len(chk.cov["samples"][-1]["first_events"]) < 10:
+            chk.cov["samples"][-1]["first_events"].append(e)
     vlib.report_trace_violations(chk, res, events, label=label)
     log("[trace] %s: %d behaviours, %d events, %d clause failures, stats %s" % (label, nb, len(events), len(res.get("viol", [])), json.dumps(res.get("stats"))))
     return res
@@ -329,7 +373,8 @@ def uploads_models(chk):
                          ("reach_timeout", "Reach_TimeoutPrune"), ("reach_nakqueue", "Reach_NakFromQueue")):
         vlib.mc("Uploads", "MC_Uploads_%s.cfg" % cfgname, expect_violation=inv, workers=4, timeout=300, heap="4g")
     live(chk, "Uploads", "MC_Uploads_live.cfg")
-    live(chk, "Uploads", "MC_Uploads_dev_dupcounts_live.cfg", expect_violation=True)
+    if thorough:
+        live(chk, "Uploads", "MC_Uploads_dev_dupcounts_live.cfg", expect_violation=True)
     log("[gen] %d TLC states, %d state-cover sequences replayed" % (nstates, len(hists)))
     return hists
 
@@ -337,18 +382,14 @@ def uploads_models(chk):
 def uploads_traces(chk, hists):
     thorough = chk.tier == "thorough"
     rng = chk.rng
-    stats = []
-    res = run_and_validate(chk, UPLOAD, [upload_script(h) for h in hists], "tlc-state-cover")
-    stats.append(res["stats"])
     ext = []
     for h in rng.sample(hists, min(len(hists), 3000 if thorough else 120)):
         base = upload_script(h, settle=False)
         for a in UPLOAD_EXT:
             ext.append(base + [a, "tick", "adv ms=%d" % ((UPLOAD["timeout"] + 1) * TICK_MS), "tick"])
-    res = run_and_validate(chk, UPLOAD, ext, "tlc-transition-cover")
-    stats.append(res["stats"])
-    res = run_and_validate(chk, UPLOAD, random_upload_behaviours(rng, 6000 if thorough else 400), "random")
-    stats.append(res["stats"])
+    res = run_and_validate(chk, UPLOAD, [("tlc-state-cover", [upload_script(h) for h in hists]), ("tlc-transition-cover", ext),
+                                         ("random", random_upload_behaviours(rng, 6000 if thorough else 400))])
+    stats = [res["stats"]]
     need(stats, ["sends", "dupsends", "nakdue", "releasedue", "atlimit"], "upload")
     chk.assumptions += [
         "peers are stub sessions: a socketpair adopted by the node's real SessionManager; the driver reads, decrypts and decodes every frame the node sends",
@@ -381,18 +422,14 @@ def fetches_traces(chk, hists):
     thorough = chk.tier == "thorough"
     rng = chk.rng
     life = LIFE[chk.tier]
-    stats = []
-    res = run_and_validate(chk, FETCH, [fetch_script(h, life) for h in hists], "tlc-state-cover")
-    stats.append(res["stats"])
     ext = []
     for h in rng.sample(hists, min(len(hists), 3000 if thorough else 120)):
         base = fetch_script(h, life, settle=False)
         for a in FETCH_EXT:
             ext.append(base + [a, "tick", "adv ms=%d" % ((FETCH["succ"] + 1) * TICK_MS), "tick"])
-    res = run_and_validate(chk, FETCH, ext, "tlc-transition-cover")
-    stats.append(res["stats"])
-    res = run_and_validate(chk, FETCH, random_fetch_behaviours(rng, 6000 if thorough else 400), "random")
-    stats.append(res["stats"])
+    res = run_and_validate(chk, FETCH, [("tlc-state-cover", [fetch_script(h, life) for h in hists]), ("tlc-transition-cover", ext),
+                                        ("random", random_fetch_behaviours(rng, 6000 if thorough else 400))])
+    stats = [res["stats"]]
     need(stats, ["requests", "failedsends", "reannounce_inflight", "arrivals", "dropdue", "zerodue", "atlimit", "doubled", "capped"], "fetch")
     chk.assumptions += [
         "providers are stub sessions (socketpair adopted by the node's real SessionManager); a send fails when the provider has no session; request frames are read and decoded by the driver",
@@ -405,4 +442,4 @@ def fetches_traces(chk, hists):
 def replay(chk, path):
     events = [json.loads(x) for x in open(path) if x.strip() and not x.startswith("#")]
     side = UPLOAD if chk.pid == "C23" else FETCH
-    run_and_validate(chk, side, [events_to_script(events)], "replay")
+    run_and_validate(chk, side, [("replay", [events_to_script(events)])])
